@@ -57,6 +57,9 @@ pub struct Violation {
     pub summary: String,
     /// everything needed to reproduce and understand the case
     pub detail: J,
+    /// the case that produced it: stream of `parallel` and index within the stream
+    pub stream: String,
+    pub idx: u64,
 }
 
 /// per-thread accumulator, merged at the end
@@ -67,6 +70,9 @@ pub struct Stats {
     pub samples: Vec<J>,
     pub violations: Vec<Violation>,
     pub evaluations: u64,
+    /// the case being run (set by `parallel`)
+    pub cur_stream: String,
+    pub cur_idx: u64,
 }
 
 impl Stats {
@@ -101,7 +107,7 @@ impl Stats {
         let n = self.violations.iter().filter(|v| v.class == class).count();
         self.add(&format!("violations_seen[{class}]"), 1);
         if n < 25 {
-            self.violations.push(Violation { class, summary: summary.into(), detail });
+            self.violations.push(Violation { class, summary: summary.into(), detail, stream: self.cur_stream.clone(), idx: self.cur_idx });
         }
     }
     pub fn merge(&mut self, o: Stats) {
@@ -138,7 +144,52 @@ where
     let start = Instant::now();
     let total = Mutex::new(Stats::default());
     let stream_id = fnv(stream) ^ fnv(&cfg.prop);
+    if let Some(rp) = &cfg.replay {
+        // replay mode: exactly the recorded case of the recorded stream, nothing else
+        let mut t = Stats::default();
+        let Some((rs, ri)) = replay_case(rp) else { return t };
+        if rs != stream {
+            return t;
+        }
+        std::thread::scope(|s| {
+            std::thread::Builder::new()
+                .stack_size(256 << 20)
+                .spawn_scoped(s, || {
+                    t.cur_stream = stream.to_string();
+                    t.cur_idx = ri;
+                    let mut rng = Rng::for_case(cfg.seed, stream_id, ri);
+                    let r = std::panic::catch_unwind(std::panic::AssertUnwindSafe(|| case(ri, &mut rng, &mut t)));
+                    if r.is_err() {
+                        t.inc("harness_panics");
+                    }
+                })
+                .unwrap();
+        });
+        t.add("replayed_cases", 1);
+        return t;
+    }
+    let finished_workers = AtomicU64::new(0);
     std::thread::scope(|s| {
+        // watchdog: a case that calls into anthem in-process and never returns cannot be
+        // interrupted; long after the budget the run is abandoned without a verdict
+        s.spawn(|| {
+            let grace = std::env::var("AVM_WATCHDOG_S").ok().and_then(|x| x.parse().ok()).unwrap_or(300u64);
+            let limit = budget.mul_f64(2.0) + Duration::from_secs(grace);
+            while finished_workers.load(Ordering::Relaxed) < cfg.threads as u64 {
+                std::thread::sleep(Duration::from_millis(200));
+                if start.elapsed() > limit {
+                    println!(
+                        "[avm] {} stream {}: {} worker(s) still inside a case {:.0} s after the start (budget {:.0} s): a call into anthem does not return; no verdict from this check (termination is decided by C16 and C18)",
+                        cfg.prop,
+                        stream,
+                        cfg.threads as u64 - finished_workers.load(Ordering::Relaxed),
+                        start.elapsed().as_secs_f64(),
+                        budget.as_secs_f64()
+                    );
+                    std::process::exit(2);
+                }
+            }
+        });
         for _ in 0..cfg.threads {
             std::thread::Builder::new()
                 .stack_size(256 << 20)
@@ -158,6 +209,8 @@ where
                             break;
                         }
                         let mut rng = Rng::for_case(cfg.seed, stream_id, idx);
+                        st.cur_stream = stream.to_string();
+                        st.cur_idx = idx;
                         let r = std::panic::catch_unwind(std::panic::AssertUnwindSafe(|| {
                             case(idx, &mut rng, &mut st);
                         }));
@@ -174,6 +227,7 @@ where
                         }
                     }
                     total.lock().unwrap().merge(st);
+                    finished_workers.fetch_add(1, Ordering::Relaxed);
                 })
                 .unwrap();
         }
@@ -181,6 +235,22 @@ where
     let mut t = total.into_inner().unwrap();
     t.add(&format!("cases_{stream}"), next.load(Ordering::Relaxed).min(max_cases));
     t
+}
+
+/// (stream, index) recorded in a replay file
+pub fn replay_case(p: &std::path::Path) -> Option<(String, u64)> {
+    let j = J::parse(&std::fs::read_to_string(p).ok()?).ok()?;
+    let c = j.get("case")?;
+    Some((c.str("stream")?.to_string(), c.int("index")? as u64))
+}
+
+/// (seed, tier, scale) recorded in a replay file
+pub fn replay_settings(p: &std::path::Path) -> Option<(u64, Tier, f64)> {
+    let j = J::parse(&std::fs::read_to_string(p).ok()?).ok()?;
+    let c = j.get("case")?;
+    let tier = if c.str("tier") == Some("thorough") { Tier::Thorough } else { Tier::Quick };
+    let scale = c.str("scale").and_then(|s| s.parse().ok()).unwrap_or(1.0);
+    Some((c.int("seed")? as u64, tier, scale))
 }
 
 thread_local! {
@@ -285,6 +355,24 @@ pub fn finish(cfg: &Config, started: Instant, out: Outcome) -> i32 {
             println!("[avm] note: known finding no longer reproduces: {} [{}]", k.what, k.class);
         }
     }
+    if let Some(rp) = &cfg.replay {
+        // replay mode: report what the recorded case does now, write nothing
+        println!("[avm] replay of {}: {} case(s) re-run", rp.display(), st.counters.get("replayed_cases").cloned().unwrap_or(0));
+        for v in &all_violations {
+            println!("[avm] violation [{}]{}: {}", v.class, if open.iter().any(|k| k.class == v.class) { " (known finding)" } else { "" }, v.summary);
+            println!("{}", v.detail.pretty());
+        }
+        if st.counters.get("replayed_cases").cloned().unwrap_or(0) == 0 {
+            eprintln!("[avm] the replay file names no case of this check (no `case` entry, or a stream this check does not have)");
+            return 2;
+        }
+        if !unlisted.is_empty() {
+            println!("VIOLATION property={} replay={}", cfg.prop, rp.display());
+            return 1;
+        }
+        println!("[avm] replay: the recorded case does not violate the property on this tree");
+        return 0;
+    }
     // replay files
     let rdir = cfg.verif_dir.join("replays").join(&cfg.prop);
     let mut first_replay: Option<PathBuf> = None;
@@ -304,6 +392,16 @@ pub fn finish(cfg: &Config, started: Instant, out: Outcome) -> i32 {
                 .set("summary", J::s(&v.summary))
                 .set("seed", J::Int(cfg.seed as i64))
                 .set("tier", J::s(tier_name(cfg.tier)))
+                .set(
+                    "case",
+                    J::obj()
+                        .set("stream", J::s(&v.stream))
+                        .set("index", J::Int(v.idx as i64))
+                        .set("seed", J::Int(cfg.seed as i64))
+                        .set("tier", J::s(tier_name(cfg.tier)))
+                        .set("scale", J::s(format!("{}", cfg.scale))),
+                )
+                .set("replay_command", J::s(format!("bin/check {} {} --replay <this file>", cfg.prop, tier_name(cfg.tier))))
                 .set("detail", v.detail.clone());
             let _ = std::fs::write(&path, j.pretty());
             if first_replay.is_none() {
